@@ -20,6 +20,8 @@ func init() {
 }
 
 func runC07(c *core.Ctx) {
+	c.Rule("ALIASMAP", "a Typecheck method does not modify the name mapping a child returned")
+	checkChildMappingUntouched(c, "ALIASMAP")
 	c.Rule("BOUNDS", "layout fixer: a slice indexed by a loop position has the ranged slice's length")
 	checkLoopIndexBounds(c, "BOUNDS", [][2]string{{"execution", "calculateMapping"}, {"execution", "(*ObjectLayoutFixer).fixLayout"}, {"execution", "NewObjectLayoutFixer"}})
 	c.Rule("TOPLIMIT", "the outermost LIMIT is typechecked without the record schema and against Int")
